@@ -627,11 +627,70 @@ def app(op, *args):
             return a0
         if at0 is not None and isinstance(at0, App) and at0.op in ("floordiv", "ceil", "floor", "trunc", "round", "len"):
             return a0
+    if op in ("min", "max") and len(args) >= 1 and all(isinstance(a_, (Poly, int, Fraction)) for a_ in args):
+        # the least / greatest of a collection: nesting, repetition and order do not matter - min(min(a, b), b) is min(a, b)
+        flat, seen_ = [], set()
+        todo = [P(a_) for a_ in args]
+        while todo:
+            a_ = todo.pop(0)
+            at_ = a_.single_atom()
+            if isinstance(at_, App) and at_.op == op and all(isinstance(q_, Poly) for q_ in at_.args):
+                todo = list(at_.args) + todo
+                continue
+            if repr(a_) not in seen_:
+                seen_.add(repr(a_))
+                flat.append(a_)
+        if len(flat) == 1:
+            return flat[0]
+        consts = [a_ for a_ in flat if a_.is_const() and a_.const_value() is not None]
+        if len(consts) > 1:
+            best = (min if op == "min" else max)(consts, key=lambda q_: q_.const_value())
+            flat = [a_ for a_ in flat if a_ not in consts or a_ is best]
+        return P(App(op, tuple(sorted(flat, key=repr))))
+    if op in ("npreal", "npimag") and len(args) == 1:
+        r_ = _np_part(op, P(args[0]))
+        if r_ is not None:
+            return r_
     lin = LINEAR.get(op)
     if not lin:
         return P(App(op, tuple(args)))
     args = list(args)
     return _lin_expand(op, args, list(lin))
+
+
+def _np_part(op, a):
+    """Real / imaginary part of a LITERAL complex array - numbers, constant roots, the literal imaginary unit and stacks of
+    such - entry by entry; None when the value is anything else (then the part stays an opaque operation)."""
+    def numeric_atom(x_):
+        return (isinstance(x_, Sym) and x_.name == "lit:1j") or (isinstance(x_, App) and x_.op in ("sqrt", "pow") and all(not hasattr(q_, "syms") or not q_.syms() for q_ in x_.args))
+
+    if a.is_zero():
+        return ZERO
+    stacks = []
+    for mono in a.terms:
+        st_ = [x_ for x_, pw_ in mono if isinstance(x_, App) and x_.op == "stack0"]
+        if any(not numeric_atom(x_) and not (isinstance(x_, App) and x_.op == "stack0") for x_, _pw in mono):
+            return None
+        if len(st_) > 1 or (st_ and dict(mono)[st_[0]] != 1):
+            return None
+        stacks.append(st_[0] if st_ else None)
+    if all(s_ is None for s_ in stacks):
+        re_, im_ = complex_split(a)
+        return re_ if op == "npreal" else im_
+    if any(s_ is None for s_ in stacks) or len({len(s_.args) for s_ in stacks}) != 1:
+        return None
+    n_ = len(stacks[0].args)
+    comps = []
+    for k_ in range(n_):
+        tot = ZERO
+        for (mono, c_), s_ in zip(a.terms.items(), stacks):
+            rest = tuple((x_, pw_) for x_, pw_ in mono if x_ is not s_)
+            tot = tot + (Poly({rest: c_}) if rest else const(c_)) * s_.args[k_]
+        part = _np_part(op, P(tot))
+        if part is None:
+            return None
+        comps.append(part)
+    return stack0(*comps)
 
 
 def _lin_expand(op, args, positions):
@@ -683,7 +742,8 @@ def _structural(op, args):
                 for x, pw in mono:
                     out = out * powq(app("sq", P(x), *args[1:]), pw)
                 return out
-    if op == "unsq" and len(args) == 3 and isinstance(args[1], int) and args[1] < 0 and isinstance(args[2], int):
+    if op == "unsq" and len(args) == 3 and isinstance(args[1], int) and args[1] < 0 and isinstance(args[2], int) and args[2] + args[1] >= 1:
+        # (the new axis must come after the stack's own leading axis: position rank + ax >= 1)
         # a new axis counted from the end goes through a stack along the leading axis: each component gets it (one rank lower)
         a = P(args[0])
         at = a.single_atom()
